@@ -79,3 +79,28 @@ func init() {
 		register(&v)
 	}
 }
+
+// Map-race variants: the same closed systems with vector clocks and reported map accesses
+// (vsync.Config.MapRaces, shim/vsync/race.go): two goroutines touching one of the library's maps
+// without synchronisation — the Go runtime's unrecoverable "concurrent map writes" / "concurrent
+// map read and map write" — is reported as fatal/concurrent-map-access/<function>.
+var mapRaceVariants = []string{
+	"c02/raw-1call-close", "c03/cuts-servecodec", "c04/raw-allmodes", "c09/1stream-servecodec", "c10/servecodec", "c10/open-then-disconnect",
+	"c13/concurrent", "c14/concurrent", "c15/concurrent-first-callers", "c16/concurrent", "c18/wake-2", "c18/close-2", "c19/1abandoned", "c20/conn-server", "c20/transport-server",
+}
+
+func init() {
+	for _, n := range mapRaceVariants {
+		base := findScenario(n)
+		if base == nil {
+			panic("map-race variant of unknown scenario " + n)
+		}
+		v := *base
+		v.Name = n + "-map-races"
+		v.MapRaces = true
+		v.Quick = []Bound{{1, 0}}
+		v.Thorough = []Bound{{2, 0}}
+		v.BudgetQ, v.BudgetT = 15, 120
+		register(&v)
+	}
+}
